@@ -1,6 +1,7 @@
 package exec
 
 import (
+	"os"
 	"fmt"
 	"go/token"
 	"go/types"
@@ -252,6 +253,11 @@ func init() {
 			}
 			return nil
 		},
+		"vhDebug": func(fr *frame, a []value) value {
+			// development aid: print a description of a value (error chains with their dynamic types)
+			fmt.Fprintf(os.Stderr, "vhDebug %s: %s\n", str(a[0]), fr.w.describe(fr, a[1], 0))
+			return nil
+		},
 		"vhObserve": func(fr *frame, a []value) value {
 			fr.w.observes = append(fr.w.observes, observation{label: str(a[0]), t: a[1].(T)})
 			return nil
@@ -311,6 +317,43 @@ func (w *Worker) namedType(pkg, name string) types.Type {
 		w.unsupported("package %s not loaded", pkg)
 	}
 	return p.Type(name).Object().Type()
+}
+
+func (w *Worker) describe(fr *frame, v value, depth int) string {
+	if depth > 8 {
+		return "..."
+	}
+	switch x := v.(type) {
+	case iface:
+		if x.t == nil {
+			return "<nil>"
+		}
+		out := x.t.String()
+		inner := x.v
+		if p, ok := inner.(*value); ok && p != nil {
+			inner = *p
+		}
+		if st, ok := inner.(structure); ok {
+			out += "{"
+			for i, f := range st {
+				if i > 0 {
+					out += ", "
+				}
+				out += w.describe(fr, f, depth+1)
+			}
+			out += "}"
+		} else {
+			out += "(" + w.describe(fr, inner, depth+1) + ")"
+		}
+		return out
+	case string:
+		return fmt.Sprintf("%q", x)
+	case T:
+		return fmt.Sprintf("%v", x)
+	case nil:
+		return "nil"
+	}
+	return fmt.Sprintf("%T", v)
 }
 
 func (w *Worker) mkErrorString(msg string) value {
@@ -608,9 +651,27 @@ func init() {
 			return fr.w.tb.Bool(strings.HasPrefix(a[0].(string), a[1].(string)))
 		},
 		"(*strings.Builder).WriteString": func(fr *frame, a []value) value {
+			p := a[0].(*value)
+			fr.w.builders[p] += a[1].(string)
 			return tuple{fr.w.tb.Const(64, uint64(len(a[1].(string)))), iface{}}
 		},
-		"(*strings.Builder).String": func(fr *frame, a []value) value { return "<builder>" },
+		"(*strings.Builder).WriteByte": func(fr *frame, a []value) value {
+			p := a[0].(*value)
+			c, ok := a[1].(T)
+			if !ok || !c.IsConst() {
+				fr.w.unsupported("strings.Builder.WriteByte of a symbolic byte")
+			}
+			fr.w.builders[p] += string([]byte{byte(c.V)})
+			return iface{}
+		},
+		"(*strings.Builder).Len": func(fr *frame, a []value) value {
+			return fr.w.tb.Const(64, uint64(len(fr.w.builders[a[0].(*value)])))
+		},
+		"(*strings.Builder).Reset": func(fr *frame, a []value) value {
+			delete(fr.w.builders, a[0].(*value))
+			return nil
+		},
+		"(*strings.Builder).String": func(fr *frame, a []value) value { return fr.w.builders[a[0].(*value)] },
 		"bytes.Equal": func(fr *frame, a []value) value {
 			w := fr.w
 			x, y := a[0].([]value), a[1].([]value)
